@@ -347,8 +347,8 @@ def refval_lines(desc, m, pkg_dir):
             if k[0] == "_" or k not in emitted:
                 continue
             t = V.traits_of(v, m)
-            line = "refval ty=%s bases=%s iface=%d valid=%d mod=%d io=%d" % (
-                t["ty"], ",".join(t["bases"]), t["iface"], t["valid"], t["mod"], t["io"])
+            line = "refval ty=%s bases=%s iface=%d valid=%d mod=%d io=%d fin=%d" % (
+                t["ty"], ",".join(t["bases"]), t["iface"], t["valid"], t["mod"], t["io"], t["fin"])
             if " " in t["ty"] or any(" " in b or "," in b for b in t["bases"]):
                 continue
             out.append((line, emitted[k], "%s:%s" % (".".join(path) or "<model>", k), t["ty"]))
